@@ -112,6 +112,7 @@ def sched_scenarios(run, menu_name, group, theorems, mode="th", reader_relaxed=F
     rest = [s for s in scen if s not in chosen]
     chosen += rest if not quick else rng.sample(rest, min(len(rest), n_quick))
     replays = 0
+    concentrated = [0]
     for s in chosen:
         setup = cf.parse_history(s["setup"])
         calls = parse_calls(s["calls"])
@@ -130,11 +131,12 @@ def sched_scenarios(run, menu_name, group, theorems, mode="th", reader_relaxed=F
         for kind, schedule, f in todo:
             u = Universe()
             r = sched.run_schedule(u, [dict(c) for c in setup], [dict(c) for c in calls], schedule=schedule,
-                                   rng=random.Random(rng.random()) if schedule is None else None, mode=mode)
+                                   rng=random.Random(rng.random()) if schedule is None else None, mode=mode,
+                                   sticky=rng.choice([0.0, 0.6, 0.85, 0.95]) if kind == "extra" else 0.0)
             replays += 1
             outs, st = r["outcomes"], r["state"]
             key = (sid, kind, tuple(r["schedule"]))
-            run.case("P-sched" if kind == "witness" else "search-schedules", key, nontrivial=len(set(r["schedule"])) > 1,
+            run.case("P-sched" if kind == "witness" else ("search-concentrated" if kind == "extra" else "search-schedules"), key, nontrivial=len(set(r["schedule"])) > 1,
                      sample={"projection": "P-sched", "setup": s["setup"], "calls": s["calls"], "schedule": ",".join(map(str, r["schedule"])),
                              "kind": kind, "outcomes": outs, "files": st})
             if kind == "witness":
@@ -184,6 +186,10 @@ def sched_scenarios(run, menu_name, group, theorems, mode="th", reader_relaxed=F
                 sig = {"kind": "sched", "symptom": classify(calls, outs, st, r["status"]), "scenario": sid, "mode": mode,
                        "calls": sorted(c["op"] for c in calls)}
                 run.violation(sig, "[%s] after [%s] under schedule %s: %s" % (s["calls"], s["setup"], ",".join(map(str, r["schedule"])), problem), replay)
+            if kind == "witness" and d and concentrated[0] < 40 and not any(t[0] == "extra" for t in todo):
+                # the model's schedule no longer fits this scenario: concentrate the search here (many schedules with few preemptions)
+                concentrated[0] += 1
+                todo.extend(("extra", None, None) for _ in range(60))
     # extraction vs kernel on a couple of the replay command lines used above
     if witnesses and chosen:
         import checks_cf
@@ -198,14 +204,58 @@ def sched_scenarios(run, menu_name, group, theorems, mode="th", reader_relaxed=F
     run.extra["scenarios_run"] = len(chosen)
 
 
+WAKE07 = [  # two threads contend on ONE identifier while a third takes and releases ANOTHER identifier of the same lock class
+    ("so - p 7 1 n n ; so - p 8 1 n n", "tag 1 7 || tag 1 8 || tag 2 8"),          # reference-locked pids
+    ("so - p 7 1 n n ; so - p 8 1 n n", "tag 1 7 || tag 2 7 || tag 3 8"),          # cids
+    ("so 1 p 7 1 n n ; so 2 p 8 1 n n", "del 1 || del 1 || del 2"),                # object-locked pids
+    ("so 1 p 7 1 n n ; so 2 p 7 1 n n ; so 3 p 8 1 n n", "del 1 || del 2 || del 3"),
+    ("so - p 7 1 n n", "tag 1 7 || tag 2 7 || tag 3 7"),
+]
+WAKE12 = [
+    ("", "sm 1 1 p 1 1 || sm 1 1 p 2 1 || sm 1 2 p 1 1"),                           # metadata documents
+    ("sm 1 1 p 1 1 ; sm 2 1 p 1 1", "dm 1 1 || sm 1 1 p 2 1 || dm 2 1"),
+    ("sm 1 1 p 1 1 ; sm 1 2 p 1 1", "dm 1 - || sm 1 1 p 2 1 || sm 1 2 p 2 1"),
+]
+
+
+def wake_families(run, families, n, reader_relaxed=False, mode="th", oracle="lin", proj="search-wakeups"):
+    """implementation-side search on 3-thread pools built to exercise wait()/notify(): random schedules with long runs of one
+    thread, judged against the implementation's own sequential runs of every order"""
+    rng = random.Random(run.seed + 7)
+    for setup_t, calls_t in families:
+        setup, calls = cf.parse_history(setup_t), parse_calls(calls_t)
+        cache = {}
+        for k in range(n):
+            r = sched.run_schedule(Universe(), [dict(c) for c in setup], [dict(c) for c in calls], rng=random.Random(rng.random()), mode=mode,
+                                   sticky=rng.choice([0.0, 0.7, 0.9]))
+            run.case(proj, (calls_t, tuple(r["schedule"])), nontrivial=True,
+                     sample={"search": "3 threads, two contending on one identifier while a third releases another of the same class", "setup": setup_t, "calls": calls_t,
+                             "schedule": ",".join(map(str, r["schedule"])), "outcomes": r["outcomes"]})
+            problem = None
+            if r["status"] != "ok":
+                problem = "execution did not complete: " + r["status"]
+            elif r["locks"]:
+                problem = "identifiers left locked: %s" % r["locks"]
+            elif oracle == "lin":
+                problem = lin_verdict(setup, calls, r["outcomes"], r["state"], cache, reader_relaxed)
+            if problem:
+                run.violation({"kind": "sched", "symptom": classify(calls, r["outcomes"], r["state"], r["status"]), "scenario": "wake:" + calls_t, "mode": mode,
+                               "calls": sorted(c["op"] for c in calls)},
+                              "[%s] after [%s] under schedule %s: %s" % (calls_t, setup_t, ",".join(map(str, r["schedule"])), problem),
+                              {"setup": setup_t, "calls": calls_t, "schedule": ",".join(map(str, r["schedule"])), "mode": mode})
+                break
+
+
 def c07(run):
-    sched_scenarios(run, "menus07.json", "pairs", ["C07_lin_pairs", "C07_known_all_fail"])
+    sched_scenarios(run, "menus07.json", "pairs", ["C07_lin_pairs", "C07_known_all_fail"], n_quick=400, rand_quick=2)
+    wake_families(run, WAKE07, 25 if run.tier == "quick" else 200)
     if run.tier != "quick":
         sched_scenarios(run, "menus07.json", "triples", ["C07_lin_triples"], n_quick=10, rand_thorough=10)
 
 
 def c12(run):
-    sched_scenarios(run, "menus12.json", "pairs", ["C12_lin_pairs"], reader_relaxed=True)
+    sched_scenarios(run, "menus12.json", "pairs", ["C12_lin_pairs"], reader_relaxed=True, n_quick=400, rand_quick=2)
+    wake_families(run, WAKE12, 25 if run.tier == "quick" else 200, reader_relaxed=True)
     if run.tier != "quick":
         sched_scenarios(run, "menus12.json", "triples", ["C12_lin_triples"], reader_relaxed=True, n_quick=10, rand_thorough=10)
 
@@ -226,6 +276,12 @@ def c08(run):
     # (b) schedules of the C07 / C12 scenarios: every call returns, nothing stays locked
     sched_scenarios(run, "menus07.json", "pairs", ["no_deadlock_fault_free"], n_quick=10, rand_quick=2, rand_thorough=6, oracle="locks", witnesses=not quick)
     sched_scenarios(run, "menus12.json", "pairs", ["no_deadlock_fault_free"], n_quick=8, rand_quick=2, rand_thorough=6, oracle="locks", witnesses=False)
+    # (b') pools in which two calls take the same identifiers of DIFFERENT lock classes (lock-order sensitive), chunky random schedules
+    LOCKORDER = [("so 1 p 7 1 n n", "tag 1 7 || del 1"), ("so 1 p 7 1 n n", "so 1 p 7 1 n n || del 1"), ("so - p 7 1 n n", "tag 1 7 || del 1"),
+                 ("so 1 p 7 1 n n ; so 2 p 7 1 n n", "del 1 || del 2 || tag 3 7"), ("so 1 p 7 1 n n ; sm 1 1 p 1 1", "del 1 || sm 1 1 p 2 1 || dm 1 -"),
+                 ("so 1 p 7 1 n n", "tag 1 7 || del 1 || so 1 p 7 1 n n")]
+    wake_families(run, LOCKORDER, 20 if quick else 200, oracle="locks", proj="search-lockorder")
+    wake_families(run, WAKE07 + WAKE12, 8 if quick else 80, oracle="locks", proj="search-wakeups")
     # (c) 3 and 4 threads drawn from a mixed menu (object and metadata calls together), random schedules, then a
     #     follow-up call on every identifier involved, under a watchdog
     n = 40 if quick else 600
@@ -337,6 +393,8 @@ def c16(run):
                 run.violation({"kind": "mode", "env": str(e)}, "with USE_MULTIPROCESSING=%r the store is initialised as [%s], expected [%s]" % (e, gi, want), {"env": e})
     finally:
         shutil.rmtree(base, ignore_errors=True)
+    # ---- (1b) static: the multiprocessing copy of every synchronised section is the threading copy up to the _th/_mp names
+    c16_copies(run)
     # ---- (2) the call sequences of C05 / C11 in multiprocessing mode: same results and states as the model (= as threading mode)
     hs_all = checks.gen_histories(rng, "all", 0, 25 if quick else 300, 10 if quick else 25)
     hs_all += checks.gen_histories(rng, "refs", 30 if quick else 300, 0, 8)
@@ -359,9 +417,14 @@ def c16(run):
                     checks.hist_key(h), k, x[0], x[1], y[0], y[1]), {"history": seq.strip(h)})
                 break
     # ---- (3) the C07 / C12 scenarios driven through the multiprocessing code paths (stand-ins under the *_mp names)
-    with _mp_env("True"):
-        sched_scenarios(run, "menus07.json", "pairs", ["C07_lin_pairs (transferred: one model for both modes)"], mode="mp", n_quick=8, rand_quick=2, rand_thorough=5)
-        sched_scenarios(run, "menus12.json", "pairs", ["C12_lin_pairs (transferred)"], mode="mp", reader_relaxed=True, n_quick=6, rand_quick=2, rand_thorough=5)
+    try:
+        with _mp_env("True"):
+            sched_scenarios(run, "menus07.json", "pairs", ["C07_lin_pairs (transferred: one model for both modes)"], mode="mp", n_quick=8, rand_quick=2, rand_thorough=5)
+            sched_scenarios(run, "menus12.json", "pairs", ["C12_lin_pairs (transferred)"], mode="mp", reader_relaxed=True, n_quick=6, rand_quick=2, rand_thorough=5)
+    except Exception as e:  # noqa: BLE001 - the store no longer has the attributes the stand-ins are installed under
+        run.disagree("P-sched[mp]", {"step": "installing the recording lists / condition stand-ins under the *_mp names"},
+                     "four lists and four conditions as plain attributes of the instance", "%s: %s" % (type(e).__name__, str(e)[:200]),
+                     ["C16: the multiprocessing copies use per-instance lists created at initialisation"])
     # ---- (4) real forked worker processes contending on shared pids and cids
     rounds = 2 if quick else 10
     for rnd in range(rounds):
@@ -390,7 +453,10 @@ def c16(run):
             with ctx.Pool(nw) as pool:
                 resB = pool.map(_fork_worker, scripts)
             u = Universe(pids={i: "pid-%d-%d" % (i // 5, i % 5) for i in range(nw * 5)})
-            listing = open(os.path.join(root, "refs", "cids", cids[0][:2], cids[0][2:4], cids[0][4:6], cids[0][6:])).read().split("\n")[:-1]
+            try:
+                listing = open(os.path.join(root, "refs", "cids", cids[0][:2], cids[0][2:4], cids[0][4:6], cids[0][6:])).read().split("\n")[:-1]
+            except OSError:
+                listing = []
             wantB = {"pid-%d-%d" % (w, j) for w in range(nw) for j in range(5)} | {"shared-pid"}
             # phase C: random contention on 3 pids x 2 contents + metadata
             def rand_script():
@@ -428,3 +494,77 @@ def c16(run):
 
 
 CHECKS["C16"] = c16
+
+
+# ---------------------------------------------------------------- C16: the two textual copies of every synchronised section
+
+def mode_copies(source):
+    """every `if self.use_multiprocessing: A else: B` statement and `A if self.use_multiprocessing else B` expression of the source,
+    as (function name, line, normalised dump of A, normalised dump of B): B is the threading copy, A the multiprocessing copy;
+    normalisation = drop logging statements, rename the `_mp` suffix of attribute names to `_th`."""
+    import ast
+
+    def is_mode_test(t):
+        return isinstance(t, ast.Attribute) and t.attr == "use_multiprocessing"
+
+    def is_logging(stmt):
+        if isinstance(stmt, ast.Expr) and isinstance(stmt.value, ast.Call) and isinstance(stmt.value.func, ast.Attribute):
+            return stmt.value.func.attr in ("debug", "info", "warning", "error", "critical")
+        return False
+
+    class Norm(ast.NodeTransformer):
+        def visit_Attribute(self, node):
+            self.generic_visit(node)
+            if node.attr.endswith("_mp"):
+                node.attr = node.attr[:-3] + "_th"
+            return node
+
+        def generic_visit(self, node):
+            for field in ("body", "orelse", "finalbody"):
+                v = getattr(node, field, None)
+                if isinstance(v, list):
+                    setattr(node, field, [s_ for s_ in v if not is_logging(s_)])
+            return super().generic_visit(node)
+
+    def dump(nodes):
+        import copy
+        out = []
+        for n in (nodes if isinstance(nodes, list) else [nodes]):
+            if isinstance(n, ast.stmt) and is_logging(n):
+                continue
+            if isinstance(n, ast.Assign) and isinstance(n.value, (ast.JoinedStr, ast.Constant, ast.BinOp)) and all(
+                    isinstance(t, ast.Name) and ("msg" in t.id or "string" in t.id) for t in n.targets):
+                continue            # message strings
+            out.append(ast.dump(Norm().visit(copy.deepcopy(n)), annotate_fields=False))
+        return out
+
+    tree = ast.parse(source)
+    found = []
+    for fn in ast.walk(tree):
+        if not isinstance(fn, (ast.FunctionDef,)):
+            continue
+        for node in ast.walk(fn):
+            if isinstance(node, ast.If) and is_mode_test(node.test):
+                found.append((fn.name, node.lineno, dump(node.body), dump(node.orelse)))
+            if isinstance(node, ast.IfExp) and is_mode_test(node.test):
+                found.append((fn.name, node.lineno, dump(node.body), dump(node.orelse)))
+    return found
+
+
+def c16_copies(run):
+    import os
+    from universe import REPO
+    src = open(os.path.join(REPO, "src", "hashstore", "filehashstore.py")).read()
+    copies = mode_copies(src)
+    run.extra["mode_copies_compared"] = len(copies)
+    for fn, line, a, b in copies:
+        run.case("P-copies", (fn, line), nontrivial=True, sample={"projection": "P-copies", "function": fn, "line": line, "statements": len(b)})
+        if fn == "__init__":
+            continue        # creation of the primitives: different constructors by design (checked by P-config/mode and by use)
+        if a != b:
+            k = next((i for i, (x, y) in enumerate(zip(a, b)) if x != y), min(len(a), len(b)))
+            run.disagree("P-copies", {"function": fn, "line": line},
+                         "threading copy: " + (b[k][:300] if k < len(b) else "(ends)"), "multiprocessing copy: " + (a[k][:300] if k < len(a) else "(ends)"),
+                         ["C16: one model program per call stands for both copies only if the copies are the same text up to the _th/_mp names"])
+    if len(copies) < 12:
+        run.disagree("P-copies", {"found": len(copies)}, ">= 12 mode-dependent sections expected", "%d found" % len(copies), ["C16 (the source no longer has the two-copy structure this check validates)"])
